@@ -1,4 +1,4 @@
 From Coq Require Extraction.
 From Coq Require Import ExtrOcamlBasic.
 From RM Require Import C11.Driver.
-Extraction "c11_model.ml" run_case run_case_st table_of table_of_text.
+Extraction "c11_model.ml" run_case run_case_st table_of table_of_src table_of_text.
